@@ -153,6 +153,19 @@ fn run(name: &str) -> String {
             if name == "td_rank_left_tail" { format!("rank(5.0)={:?} rank(0.0)={:?} rank(9.9)={:?}", t.rank(5.0), t.rank(0.0), t.rank(9.9)) }
             else { format!("q(0.8)={:?} q(0.9)={:?} q(0.95)={:?} max={:?}", t.quantile(0.8), t.quantile(0.9), t.quantile(0.95), t.max_value()) }
         }
+        "td_quantile_monotone" => {
+            let mut b = vec![2u8, 1, 20]; b.extend_from_slice(&100u16.to_le_bytes()); b.push(0); b.extend_from_slice(&0u16.to_le_bytes());
+            b.extend_from_slice(&3u32.to_le_bytes()); b.extend_from_slice(&0u32.to_le_bytes());
+            b.extend_from_slice(&0f64.to_le_bytes()); b.extend_from_slice(&100f64.to_le_bytes());
+            for (m, w) in [(10.0f64, 6u64), (50.0, 4), (90.0, 10)] { b.extend_from_slice(&m.to_le_bytes()); b.extend_from_slice(&w.to_le_bytes()); }
+            let mut t = TDigestMut::deserialize(&b, false).unwrap();
+            let qs: Vec<String> = (0..=20).map(|i| format!("{:.1}", t.quantile(i as f64 / 20.0).unwrap())).collect();
+            let mut u = TDigestMut::new(10);
+            for i in 0..2000 { u.update(i as f64); }
+            let mut bad = 0; let mut prev = f64::MIN;
+            for i in 0..=1000 { let q = u.quantile(i as f64 / 1000.0).unwrap(); if q < prev { bad += 1; } prev = q; }
+            format!("image quantiles: {} | streamed k=10 n=2000: {} decreasing steps of 1000", qs.join(" "), bad)
+        }
         "td_cdf_empty" => {
             let mut t = TDigestMut::new(100);
             for i in 0..100 { t.update(i as f64); }
